@@ -50,6 +50,46 @@ def sizes_for(c):
     return [0, 1, c - 1, c, c + 1, 2 * c, 3 * c + 1]
 
 
+CONTENT_KINDS = ["rand", "zeros", "last0", "lastfull0", "first0", "mid0", "rep00", "repff", "rep0a", "rep0d", "crlf",
+                 "dup", "pattern"]
+
+
+def content(kind, n, c, r=None):
+    """file contents of length n, shaped relative to the chunk size c: whole chunks of zeros at the end / start / middle
+    (sparse-file shortcuts), a single repeated byte, CR/LF-heavy text (text-mode translation), every chunk equal to the
+    previous one (dedup shortcuts), random bytes.  The non-zero filler never contains a zero byte."""
+    if n == 0:
+        return b""
+    base = bytearray((i * 31 + 7) % 255 + 1 for i in range(n))
+    if kind == "rand":
+        return r.bytes(n) if r is not None else bytes((i * i * 7 + i * 13 + 5) & 0xFF for i in range(n))
+    if kind == "zeros":
+        return bytes(n)
+    if kind.startswith("rep"):
+        return bytes([int(kind[3:], 16)]) * n
+    if kind == "crlf":
+        unit = b"\r\n\n\r\r\na\r\nb\n\rc\x1a\r\n"
+        return (unit * (n // len(unit) + 1))[:n]
+    if kind == "dup":
+        unit = bytes(base[:max(1, min(c, n))])
+        return (unit * (n // len(unit) + 1))[:n]
+    if kind == "pattern":
+        return bytes(base)
+    nchunks = (n + c - 1) // c
+    if kind == "last0":                       # the last chunk as it is read (may be partial)
+        lo, hi = c * (nchunks - 1), n
+    elif kind == "lastfull0":                 # the last complete chunk
+        k = n // c
+        lo, hi = (c * (k - 1), c * k) if k else (0, 0)
+    elif kind == "first0":
+        lo, hi = 0, min(c, n)
+    else:                                     # mid0
+        m = nchunks // 2
+        lo, hi = c * m, min(c * (m + 1), n)
+    base[lo:hi] = bytes(hi - lo)
+    return bytes(base)
+
+
 def gen_tree(r, depth, c, budget, force_dir=False):
     """budget: [remaining number of large files] (only matters for the 64000-byte chunk)"""
     k = r.below(10)
@@ -62,7 +102,7 @@ def gen_tree(r, depth, c, budget, force_dir=False):
                 n = r.choice([0, 1, 2, 999])
             else:
                 budget[0] -= 1
-        return ("F", r.bytes(n))
+        return ("F", content(r.choice(CONTENT_KINDS), n, c, r))
     fan = r.below(5) if not force_dir else r.range(1, 4)
     entries = []
     used = set()
@@ -152,6 +192,43 @@ def brief(tree):
     if tree[0] == "X":
         return "X"
     return "D(" + ",".join("%s=%s" % (n, brief(t)) for n, t in sorted(tree[1])) + ")"
+
+
+def content_class(b, c):
+    """coarse class of a file's contents relative to the chunk size (for the distinctness rule and the distribution)"""
+    if not b:
+        return "e"
+    if len(set(b)) == 1:
+        return "u%02x" % b[0]
+    tags = ""
+    chunks = [b[i:i + c] for i in range(0, len(b), c)]
+    if any(len(ch) == c and not any(ch) for ch in chunks):
+        tags += "Z" if not any(chunks[-1]) else "z"
+    if len(chunks) > 1 and any(chunks[i] == chunks[i - 1] for i in range(1, len(chunks))):
+        tags += "d"
+    if b"\r\n" in b or b"\n\r" in b:
+        tags += "n"
+    return tags or "o"
+
+
+def shape(tree, c):
+    if tree is None:
+        return "-"
+    if tree[0] == "F":
+        return "F%d%s" % (len(tree[1]), content_class(tree[1], c))
+    if tree[0] == "X":
+        return "X"
+    return "D(" + ",".join("%s=%s" % (n, shape(t, c)) for n, t in sorted(tree[1])) + ")"
+
+
+def classes(tree, c, acc):
+    if tree[0] == "F":
+        k = content_class(tree[1], c)
+        acc[k] = acc.get(k, 0) + 1
+    elif tree[0] == "D":
+        for _n, t in tree[1]:
+            classes(t, c, acc)
+    return acc
 
 
 def count(tree, acc):
@@ -293,6 +370,29 @@ def boundary_cases():
             data = bytes((i * 7 + 1) & 0xFF for i in range(n))
             out.append(dict(direction="upload_file", chunk=c, filter="N", ignore_invalid=False, tree=("F", data)))
             out.append(dict(direction="download_file", chunk=c, filter="N", ignore_invalid=False, tree=("F", data)))
+    # contents shaped against the chunk size, every boundary size, both directions
+    for c in (1, 2, 7):
+        for n in sizes_for(c):
+            for kind in CONTENT_KINDS:
+                for d in ("upload_file", "download_file"):
+                    out.append(dict(direction=d, chunk=c, filter="N", ignore_invalid=False, tree=("F", content(kind, n, c))))
+    for c in (3, 5, 8, 64, 512, 1000, 4096):
+        for n in (c, 2 * c, 3 * c + 1):
+            for kind in ("zeros", "last0", "lastfull0", "mid0", "dup", "crlf"):
+                for d in ("upload_file", "download_file"):
+                    out.append(dict(direction=d, chunk=c, filter="N", ignore_invalid=False, tree=("F", content(kind, n, c))))
+    for n in (64000, 64001, 128000, 192001):
+        for kind in ("zeros", "lastfull0", "dup", "rep0a"):
+            for d in ("upload_file", "download_file"):
+                out.append(dict(direction=d, chunk=64000, filter="N", ignore_invalid=False,
+                                tree=("F", content(kind, n, 64000))))
+            out.append(dict(direction="upload_file" if kind in ("zeros", "dup") else "download_file", chunk=None,
+                            filter="N", ignore_invalid=False, tree=("F", content(kind, n, 64000))))
+    zt = ("D", [("z1", ("F", bytes(14))), ("z2", ("F", content("last0", 21, 7))), ("d1", ("D", [
+        ("nl", ("F", content("crlf", 15, 7))), ("dup", ("F", content("dup", 28, 7))), ("ff", ("F", b"\xff" * 7))]))])
+    for d in ("upload", "download"):
+        for c in (1, 7):
+            out.append(dict(direction=d, chunk=c, filter="N", ignore_invalid=False, tree=zt))
     sample = ("D", [("a.txt", ("F", b"abc")), ("empty", ("D", [])), ("b.tmp", ("F", b"\x00" * 15)),
                     ("d1", ("D", [("c.txt", ("F", b"")), ("s", ("X", "fifo")), ("d.tmp", ("D", [("x", ("F", b"7"))])),
                                   ("d2", ("D", [("d3", ("D", [("deep.txt", ("F", b"deep" * 5))]))]))])),
@@ -336,8 +436,11 @@ def correspondence(ctx):
               "x ignore_invalid x both directions; top-level file / fifo / dangling link / missing path; empty tree; "
               "existing empty destination; then seeded trees (depth <= 4, fan-out <= 4, empty dirs, fifos, dangling links, "
               "names with the filtered suffix/prefix on files and directories) x chunk x filter x direction. "
+              "File contents: random, all zeros, last / last complete / first / middle chunk all zeros, one repeated "
+              "byte (00, ff, 0a, 0d), CR/LF-heavy, every chunk equal to the previous one, a zero-free pattern - at every "
+              "boundary size for chunk 1, 2, 7 and at c, 2c, 3c+1 for the others, both directions. "
               "Non-trivial = at least one file or an error; distinct = distinct (direction, chunk, filter, shape of "
-              "source with sizes, outcome).")
+              "source with sizes and content class relative to the chunk, outcome).")
     r = Rng(ctx.seed).fork("c20")
     cases = boundary_cases() + [gen_case(r) for _ in range(ctx.budget(400, 4000))]
     rig = Rig()
@@ -375,8 +478,10 @@ def correspondence(ctx):
             continue
         acc = count(listed, dict(files=0, dirs=0, others=0, empty_dirs=0, bytes=0))
         if acc["files"] or want[0] == "err":
-            c.signatures.add("%s|%s|%s|%s|%s" % (case["direction"], case["chunk"], case["filter"], brief(listed),
-                                                 show_brief(want)))
+            c.signatures.add("%s|%s|%s|%s|%s" % (case["direction"], case["chunk"], case["filter"],
+                                                 shape(listed, chunk_of(case)), show_brief(want)))
+        for k, v in classes(listed, chunk_of(case), {}).items():
+            c.count("content:" + k, v)
         if len(c.samples) < 12 and c.evaluations % 37 == 5:
             c.samples.append(dict(case=case_desc(case, listed)[:400], outcome=show_brief(want)[:300]))
     for k, v in tot.items():
